@@ -616,8 +616,8 @@ func CheckC18(p *Pkg, e *Env, r *res.Result) {
 			// a path value spelled like a constant segment makes another operation run: the
 			// failure is classified by the operation that ran, and the document was not
 			// drawn for its body schema
-			if oa.Dispatch && oa.Template != "" && oa.Template != op.Template {
-				if ran, ranB := p.OpFor(op.Method, oa.Template), q.OpFor(op.Method, oa.Template); ran != nil && ranB != nil {
+			if ranTpl := strings.TrimPrefix(oa.Template, op.Method+" "); oa.Dispatch && oa.Template != "" && ranTpl != op.Template {
+				if ran, ranB := p.OpFor(op.Method, ranTpl), q.OpFor(op.Method, ranTpl); ran != nil && ranB != nil {
 					op, opB = ran, ranB
 					if docClass != "" && docClass != ":malformed-json" {
 						docClass = ":document-for-another-operation"
